@@ -278,3 +278,20 @@ CASES += [
     dict(id='c03-eq-subgroup-cursor-next-form', prop='C03', file=H, expect=None,
          old="      auto  subAI( ai);\n      ++subAI;\n", new="      auto  subAI( ai);\n      subAI++;\n"),
 ]
+
+HC = 'src/library/prog_args/handler.cpp'
+CASES += [
+    dict(id='c08-value-list-open-by-value-mode', prop='C08', file=HC, expect='R6',
+         old="   return (mpLastArg != nullptr) && mpLastArg->takesMultiValue();", new="   return (mpLastArg != nullptr) && (mpLastArg->valueMode() != ValueMode::none);"),
+    dict(id='c08-eq-value-list-open-local', prop='C08', file=HC, expect=None,
+         old="   return (mpLastArg != nullptr) && mpLastArg->takesMultiValue();", new="   const bool  open = (mpLastArg != nullptr) && mpLastArg->takesMultiValue();\n   return open;"),
+    dict(id='c05-eq-subgroup-key-by-ctor-only', prop='C05', file=HC, expect=None,
+         old="   arg_hdl->setKey( key);\n", new=""),
+    dict(id='c05-eq-subgroup-key-by-handler-only', prop='C05', file='src/library/prog_args/detail/typed_arg_sub_group.cpp', expect=None,
+         old="   setKey( key);\n", new=""),
+    dict(id='c05-subgroup-key-never-set', prop='C05', expect='R8',
+         edits=[(HC, "   arg_hdl->setKey( key);\n", ""),
+                ('src/library/prog_args/detail/typed_arg_sub_group.cpp', "   setKey( key);\n", "")]),
+    dict(id='c03-continuation-through-funnel', prop='C03', file=HC, expect='R15',
+         old="         mpLastArg->assignValue( mReadMode != ReadMode::commandLine, ai->mValue,\n            mInverted);", new="         handleIdentifiedArg( mpLastArg, mpLastArg->key(), ai->mValue);"),
+]
